@@ -1,5 +1,7 @@
 (* C10: case syntax, model observation, oracle on an observation.
-   case:  ttl <seconds> { T d i tag | B d i | D d i | A ns | F t | S c | E c }
+   case:  ttl <seconds> [tick <ns>] { T d i tag | B d i | D d i | A ns | F t | S c | E c }
+          (tick: how far the harness clock moves on every clock read made by the collector's own
+           goroutine, i.e. between the two clock uses of addTemplate; default 0)
    observation, one group per action:
      / now p1 p2 p3 p4 ndom { t d i tag expiry timer } { a timer deadline } { f cb timer now|_ }
    (probes p1..p4 over Ttl.universe: x = rejected, n = accepted with n records) *)
@@ -51,11 +53,16 @@ Fixpoint c10_parse_acts (l : list string) : option (list act) :=
   | _ => None
   end.
 
-Definition c10_parse (l : list string) : option (Z * list act) :=
+Definition c10_parse (l : list string) : option (Z * Z * list act) :=
   match l with
+  | "ttl" :: s :: "tick" :: k :: r =>
+      match parse_N s, parse_N k, c10_parse_acts r with
+      | Some s', Some k', Some a => Some (ttl_of_input c_entities_TemplateTTL s', Z.of_N k', a)
+      | _, _, _ => None
+      end
   | "ttl" :: s :: r =>
       match parse_N s, c10_parse_acts r with
-      | Some s', Some a => Some (ttl_of_input c_entities_TemplateTTL s', a)
+      | Some s', Some a => Some (ttl_of_input c_entities_TemplateTTL s', 0%Z, a)
       | _, _ => None
       end
   | _ => None
@@ -122,16 +129,16 @@ Fixpoint c10_parse_obs (l : list string) (cur : option obs) (acc : list obs) : o
 
 (* per-case oracle on an observation (the model's or the implementation's): the boolean body of
    theorem C10_oracle_holds (Props/C10.v) *)
-Definition C10_holds_on (ttl : Z) (acts : list act) (obs : list string) : bool :=
+Definition C10_holds_on (ttl tk : Z) (acts : list act) (obs : list string) : bool :=
   match c10_parse_obs obs None [] with
-  | Some os => check_trace ttl ginit acts os
+  | Some os => check_trace ttl tk ginit acts os
   | None => false
   end.
 
 Definition c10_run (case obs : list string) : string :=
   match c10_parse case with
-  | Some (ttl, acts) =>
-      show_trace (trace ttl init acts) ++ " | " ++ show_bool (C10_holds_on ttl acts obs) ++ " " ++
-      show_bool (Nat.ltb 0 (next_cb (run ttl acts)))
+  | Some (ttl, tk, acts) =>
+      show_trace (trace ttl (init_tick tk) acts) ++ " | " ++ show_bool (C10_holds_on ttl tk acts obs) ++ " " ++
+      show_bool (Nat.ltb 0 (next_cb (run_tick ttl tk acts)))
   | None => "PARSE-ERROR"
   end.
